@@ -194,6 +194,23 @@ pub struct F25 {
     pub any: Vec<Choice3>,
 }
 
+#[derive(Debug, Clone, PartialEq, Serialize, Deserialize)]
+pub struct Node2 {
+    #[serde(default)]
+    pub a: Vec<String>,
+    #[serde(default)]
+    pub b: Vec<String>,
+}
+/// overlapped lists on two levels: items of the root list `a` have list fields of their own
+#[derive(Debug, Clone, PartialEq, Serialize, Deserialize)]
+pub struct F26 {
+    #[serde(default)]
+    pub a: Vec<Node2>,
+    pub n: String,
+    #[serde(default)]
+    pub b: Vec<String>,
+}
+
 // ---- outside the round-trippable domain (C13 / C07 only)
 #[derive(Debug, Clone, PartialEq, Serialize, Deserialize)]
 pub struct H01 {
@@ -227,7 +244,7 @@ pub struct H06 {
     pub a: Hostile,
 }
 
-pub const TYPES: &[&str] = &["F01", "F02", "F03", "F04", "F05", "F07", "F08", "F11", "F15", "F16", "F17", "F18", "F19", "F20", "F22", "F23", "F24", "F25", "H01", "H02", "H05", "H06"];
+pub const TYPES: &[&str] = &["F01", "F02", "F03", "F04", "F05", "F07", "F08", "F11", "F15", "F16", "F17", "F18", "F19", "F20", "F22", "F23", "F24", "F25", "F26", "H01", "H02", "H05", "H06"];
 
 /// Apply `$body` with `T` bound to the family type named `$name`.
 #[macro_export]
@@ -252,6 +269,7 @@ macro_rules! with_type {
             "F23" => { type $T = $crate::family::F23; $body }
             "F24" => { type $T = $crate::family::F24; $body }
             "F25" => { type $T = $crate::family::F25; $body }
+            "F26" => { type $T = $crate::family::F26; $body }
             "H01" => { type $T = $crate::family::H01; $body }
             "H02" => { type $T = $crate::family::H02; $body }
             "H05" => { type $T = $crate::family::H05; $body }
